@@ -200,9 +200,12 @@ def checkStatementDepthIsZero (p : Parser σ) : Parser σ :=
     addErr S { file := (S.endLoc p.src).1, pos := some ((S.endLoc p.src).2.1, (S.endLoc p.src).2.2),
                cls := .missingBraces p.depth } p
 
+/-- `p := &parser{lex: …}` -/
+def initParser (s : σ) : Parser σ := { src := s, tokens := [], depth := 0, fault := .none }
+
 /-- `Parse` over a source in its initial state -/
 def parseWith (fuel : Nat) (s : σ) : ParseResult :=
-  let r := topLoop S fuel [] { src := s, tokens := [], depth := 0, fault := .none }
+  let r := topLoop S fuel [] (initParser s)
   let p := checkStatementDepthIsZero S r.2
   if p.fault ≠ .none then .fault p.fault
   else if S.fault p.src ≠ .none then .fault (S.fault p.src)
